@@ -82,7 +82,7 @@ def _check(sizes, batch_size, kind, ncol, pad, alias, num_columns):
 '''
 
 
-def gen(ms, smax, bmax, kinds, ncols, pads, alias):
+def gen(ms, smax, bmax, kinds, ncols, pads, alias, alias_max_m=9):
   F = xh.fn
   s = [PRELUDE]
   smax_by_m, smax = smax, max(smax.values())
@@ -91,7 +91,7 @@ def gen(ms, smax, bmax, kinds, ncols, pads, alias):
     for kind in kinds:
       for ncol in ncols:
         for pad in pads:
-          for al in ([False, True] if (alias and m >= 2) else [False]):
+          for al in ([False, True] if (alias and m >= 2 and (m <= alias_max_m)) else [False]):
             args = [f's{j}: int' for j in range(m)] + ['bs: int'] + ([f'a{j}: bool' for j in range(m - 1)] if al else [])
             pre = ' and '.join([f'0 <= s{j} <= {sm}' for j in range(m)] + [f'1 <= bs <= {min(bmax, sm + 1)}'])
             sizes = '[' + ', '.join(f's{j}' for j in range(m)) + ']'
@@ -144,14 +144,15 @@ def _pipe(sizes, fbs, obs):
 '''
 
 
-def gen_pipe(ms, smax, bmax):
+def gen_pipe(ms, smax, pairs):
   F = xh.fn
   s = [PRELUDE, PIPE]
   for m in ms:
-    args = ', '.join([f's{j}: int' for j in range(m)] + ['fbs: int', 'obs: int'])
-    pre = ' and '.join([f'0 <= s{j} <= {smax}' for j in range(m)] + [f'0 <= fbs <= {bmax}', f'0 <= obs <= {bmax}', '(fbs == 0 or obs > 0)'])
-    sizes = '[' + ', '.join(f's{j}' for j in range(m)) + ']'
-    s.append(F(f'ob_pipeline_rebatch_m{m}', args, pre, f'return _pipe({sizes}, fbs, obs)'))
+    for fbs, obs in pairs:       # (fn_batch_size, batch_size) enumerated; input batch sizes symbolic
+      args = ', '.join(f's{j}: int' for j in range(m))
+      pre = ' and '.join(f'0 <= s{j} <= {smax}' for j in range(m))
+      sizes = '[' + ', '.join(f's{j}' for j in range(m)) + ']'
+      s.append(F(f'ob_pipeline_rebatch_m{m}_f{fbs}_o{obs}', args, pre, f'return _pipe({sizes}, {fbs}, {obs})'))
   return '\n'.join(s)
 
 
@@ -164,12 +165,12 @@ def run(tier):
   from ml_metrics._src.chainables import tree_fns
   rep.encoded(iter_utils.rebatched_args, iter_utils._concat, iter_utils._pad, iter_utils._batch_size, tree_fns.TreeFn._iterate)
   if tier == 'quick':
-    p = dict(ms=[1, 2, 3], smax={1: 5, 2: 4, 3: 2}, bmax=4, kinds=['list', 'tuple'], ncols=[2], pads=[None, -1], alias=True)
-    pp = dict(ms=[2], smax=2, bmax=2)
-    timeout = 120
+    p = dict(ms=[1, 2, 3], smax={1: 5, 2: 4, 3: 2}, bmax=4, kinds=['list', 'tuple'], ncols=[2], pads=[None, -1], alias=True, alias_max_m=2)
+    pp = dict(ms=[2], smax=2, pairs=[(0, 0), (0, 2), (1, 1), (2, 2), (1, 2), (2, 1), (3, 2)])
+    timeout = 300
   else:
     p = dict(ms=[0, 1, 2, 3, 4], smax={0: 0, 1: 8, 2: 5, 3: 4, 4: 2}, bmax=5, kinds=['list', 'tuple'], ncols=[1, 2, 3], pads=[None, -1], alias=True)
-    pp = dict(ms=[1, 2, 3], smax=4, bmax=4)
+    pp = dict(ms=[1, 2, 3], smax=4, pairs=[(0, 0), (0, 1), (0, 2), (0, 3), (1, 1), (2, 2), (1, 2), (2, 1), (3, 2), (2, 3), (4, 3)])
     timeout = 900
   rep.bounds(rebatched_args=p, pipeline=pp, per_condition_timeout_s=timeout,
              note='ms = numbers of input batches; each batch size 0..smax, target 1..bmax (0 = pass-through); '
